@@ -9804,7 +9804,7 @@ class Parser:
                 dot_or_id = column.to_dot() if column.table else column.this
 
                 if typ:
-                    dot_or_id = self.expression(exp.Cast(this=dot_or_id, to=typ))
+                    dot_or_id = self.expression(exp.Cast(this=dot_or_id, to=typ.copy()))
 
                 parent = column.parent
 
